@@ -7,6 +7,7 @@ use std::io::Read;
 
 mod c17;
 mod c18;
+mod c19;
 
 pub fn bytes_of(v: &Value) -> Vec<u8> {
     if let Some(s) = v.get("utf8").and_then(|x| x.as_str()) {
@@ -34,6 +35,9 @@ fn main() {
         "c17_roundtrip" => c17::roundtrip(&v),
         "c17_parse" => c17::parse(&v),
         "c17_remap" => c17::remap(&v),
+        "c19_accepted" => c19::accepted(&v),
+        "c19_totals" => c19::totals(&v),
+        "c19_numstat" => c19::numstat(&v),
         "c18_parse" => c18::parse(&v),
         "c18_alias_tokens" => c18::alias_tokens(&v),
         "c18_alias_resolve" => c18::alias_resolve(&v),
